@@ -63,7 +63,7 @@ func init() {
 			}
 			sort.Strings(ps)
 			engs = append(engs, map[string]any{"name": f, "path": "checker/", "serves_properties": ps,
-				"kind_free_text": "static analysis rule family over go/types + go/ssa (see DESIGN.md §3)"})
+				"kind_free_text": "static analysis rule family over go/types + go/ssa (dataflow / guard / effect analyses, or abstract interpretation of the SSA by the checker's own machine over finite input partitions; see DESIGN.md §0 and §3)"})
 		}
 		if na == nil {
 			na = []any{}
@@ -81,9 +81,10 @@ func init() {
 			"engines":        engs,
 			"checks":         checks,
 			"not_applicable": na,
-			"notes": "All checks are static analyses of /repo's current working tree (loaded and type-checked on every run); none executes repository code. " +
-				"Exit 0 = every obligation discharged (known findings printed as KNOWN-FINDING), exit 1 = VIOLATION, exit 2 = the checker could not decide (load/type error, unresolved anchor, vacuity floor) — never a VIOLATION line. " +
-				"Every claim is level 'other': structural necessary conditions (or sound sufficient conditions for one clause) of the property, as stated per check.",
+			"notes": "All checks are static analyses of /repo's current working tree (loaded and type-checked with go/packages on every run, lowered to go/ssa); no repository code is compiled to a binary or executed. " +
+				"Two kinds of rule: (1) all-path dataflow / guard / effect analyses on the SSA; (2) abstract interpretation: the checker's own abstract machine (checker/mach.go) evaluates the SSA of a component through its exported entry points over a finite partition of inputs, everything outside the partition being an opaque symbol, and the outcome is compared with an oracle written from the property statement. " +
+				"Exit 0 = every obligation discharged (known findings printed as KNOWN-FINDING), exit 1 = VIOLATION, exit 2 = the checker could not decide (load/type error, unresolved anchor, a construct the machine cannot follow, vacuity floor) - never a VIOLATION line. " +
+				"Every claim is level 'other': exhaustive for the stated finite families (or an all-path necessary condition), nothing beyond them.",
 		}
 		if err := writeJSON(filepath.Join(verif, "MANIFEST.json"), m); err != nil {
 			fmt.Fprintln(os.Stderr, err)
